@@ -51,6 +51,7 @@ type Engine struct {
 	Guarded   []GuardDecl
 	Writers   []WritersDecl
 	GlobalFacts map[string]Expr
+	Local     map[string]map[string]*UnitSpec // contracts a package states about foreign callees (package -> callee -> spec)
 }
 
 // Unit is one verification run of a function against its contract.
@@ -478,4 +479,12 @@ type WritersDecl struct {
 	Pkg, Type, Field string
 	Allowed          []string
 	Props            []string
+}
+
+// pkgName is the short name of the package whose contract file declares the unit.
+func (u *Unit) pkgName() string {
+	if u.spec != nil {
+		return u.spec.Pkg
+	}
+	return ""
 }
